@@ -272,7 +272,8 @@ def check(tier: str, seed: int) -> Result:
     seeds = ["0", "1", "2", str(1000 + seed)] if tier == "thorough" else ["1", str(1000 + seed)]
     if tier == "quick":
         hists = [""] + HIST_OPS
-        special = {i for i, c in enumerate(configs) if any("parameters" in nd and not nd["parameters"] for nd in c["pipeline"]["nodes"])}
+        special = {i for i, c in enumerate(configs) if any("parameters" in nd and not nd["parameters"] for nd in c["pipeline"]["nodes"])
+                   or sum(1 for nd in c["pipeline"]["nodes"] if "derive" in nd) >= 2}
         pick = sorted(set(range(0, len(configs), 3)) | special)
     else:
         hists = [""] + HIST_OPS + [f"{a},{b}" for a in HIST_OPS for b in HIST_OPS]
